@@ -88,15 +88,15 @@ theorem qsub_same_unit (tbl : Table α) (x y d : Quantity α) (hu : x.unit = y.u
 
 /-- `assert_eq(a, b, eps)` succeeds iff the absolute difference of `a` and `b` is at most `eps`, as
 physical quantities (all three expressed in `eps`'s unit by the code) -/
-theorem assert_eq3_iff (tbl : Table α) (hp : PosTbl tbl) (a b eps ac bc : Quantity α)
+theorem assert_eq3_core_iff (tbl : Table α) (hp : PosTbl tbl) (a b eps ac bc : Quantity α)
     (ha : convertTo tbl a eps.unit = .ok ac) (hb : convertTo tbl b eps.unit = .ok bc) :
-    assertEq3 tbl a b eps = .ok ↔ le (NumOps.abs (phys tbl a - phys tbl b)) (phys tbl eps) = true := by
+    assertEq3Core tbl a b eps = .ok ↔ le (NumOps.abs (phys tbl a - phys tbl b)) (phys tbl eps) = true := by
   have ua := convert_unit' tbl a ac _ ha
   have ub := convert_unit' tbl b bc _ hb
   have ea := convert_phys' tbl hp a ac _ ha
   have eb := convert_phys' tbl hp b bc _ hb
   have hF := pos_prodW tbl hp eps.unit
-  unfold assertEq3
+  unfold assertEq3Core
   rw [ha, hb]
   simp only
   cases hd : qsub tbl ac bc with
@@ -127,9 +127,9 @@ theorem assert_eq3_iff (tbl : Table α) (hp : PosTbl tbl) (a b eps ac bc : Quant
 
 /-- a NaN tolerance never passes (any `NumOps` instance whose comparisons are false on NaN is irrelevant
 here: the check is explicit in `qle`) -/
-theorem assert_eq3_nan_eps {β : Type} [NumOps β] (tbl : Table β) (a b eps : Quantity β)
-    (hn : isNaN eps.value = true) : assertEq3 tbl a b eps ≠ .ok := by
-  unfold assertEq3
+theorem assert_eq3_core_nan_eps {β : Type} [NumOps β] (tbl : Table β) (a b eps : Quantity β)
+    (hn : isNaN eps.value = true) : assertEq3Core tbl a b eps ≠ .ok := by
+  unfold assertEq3Core
   cases ha : convertTo tbl a eps.unit with
   | error e => simp
   | ok ac =>
@@ -165,5 +165,67 @@ theorem assert_eq3_nan_eps {β : Type} [NumOps β] (tbl : Table β) (a b eps : Q
           unfold qle convertTo
           simp [hu, unitEq_refl, hn]
         simp [this]
+
+/-- a tolerance that has a unit, or is not zero, is used as it is -/
+theorem epsNorm_id {β : Type} [NumOps β] (tbl : Table β) (a b eps : Quantity β)
+    (h : (eps.isZero && eps.unit.isEmpty) = false) : epsNorm tbl a b eps = eps := by
+  unfold epsNorm
+  simp [h]
+
+/-- `assert_eq(a, b, eps)` succeeds iff the absolute difference of `a` and `b` is at most `eps`, as physical
+quantities — for every tolerance that has a unit or is not zero (the code expresses all three in `eps`'s unit) -/
+theorem assert_eq3_iff (tbl : Table α) (hp : PosTbl tbl) (a b eps ac bc : Quantity α)
+    (hu : (eps.isZero && eps.unit.isEmpty) = false)
+    (ha : convertTo tbl a eps.unit = .ok ac) (hb : convertTo tbl b eps.unit = .ok bc) :
+    assertEq3 tbl a b eps = .ok ↔ le (NumOps.abs (phys tbl a - phys tbl b)) (phys tbl eps) = true := by
+  unfold assertEq3
+  rw [epsNorm_id tbl a b eps hu]
+  exact assert_eq3_core_iff tbl hp a b eps ac bc ha hb
+
+/-- a NaN tolerance never passes -/
+theorem assert_eq3_nan_eps {β : Type} [NumOps β] (tbl : Table β) (a b eps : Quantity β)
+    (hn : isNaN eps.value = true) (hz : eps.isZero = false) : assertEq3 tbl a b eps ≠ .ok := by
+  unfold assertEq3
+  rw [epsNorm_id tbl a b eps (by simp [hz])]
+  exact assert_eq3_core_nan_eps tbl a b eps hn
+
+/-- **A zero tolerance written without a unit** (`assert_eq(1 m, 100 cm, 0)`; the literal `0` has every dimension):
+the assertion is the comparison with the zero tolerance expressed in the unit of the left operand — of the right
+one if the left operand is a zero.  (Before numbat's repair 0551bf6 both operands were converted to the missing
+unit of the tolerance, which fails for every non-zero operand.) -/
+theorem assert_eq3_unitless_zero {β : Type} [NumOps β] (tbl : Table β) (a b eps : Quantity β)
+    (hz : eps.isZero = true) (hu : eps.unit = []) :
+    assertEq3 tbl a b eps
+      = assertEq3Core tbl a b ⟨eps.value, if a.isZero then b.unit else a.unit, true⟩ := by
+  have hc : convertTo tbl eps (if a.isZero then b.unit else a.unit)
+      = .ok ⟨eps.value, if a.isZero then b.unit else a.unit, true⟩ := by
+    unfold convertTo
+    simp [hz]
+  unfold assertEq3 epsNorm
+  rw [hc]
+  simp [hz, hu]
+
+/-- … and then it succeeds iff `a` and `b` are the same physical quantity (exact arithmetic; `a` not a zero, `b` of
+`a`'s dimension) -/
+theorem assert_eq3_unitless_zero_iff (tbl : Table α) (hp : PosTbl tbl) (a b eps bc : Quantity α)
+    (hz : eps.isZero = true) (hu : eps.unit = []) (ha : a.isZero = false)
+    (hb : convertTo tbl b a.unit = .ok bc) :
+    assertEq3 tbl a b eps = .ok ↔ phys tbl a = phys tbl b := by
+  rw [assert_eq3_unitless_zero tbl a b eps hz hu]
+  simp only [ha, Bool.false_eq_true, if_false]
+  have haa : convertTo tbl a a.unit = .ok ⟨a.value, a.unit, true⟩ := by
+    unfold convertTo
+    simp [unitEq_refl]
+  have key := assert_eq3_core_iff tbl hp a b ⟨eps.value, a.unit, true⟩ ⟨a.value, a.unit, true⟩ bc haa hb
+  rw [key]
+  have he : eps.value = 0 := (isZero_iff eps).mp hz
+  have hphys : phys tbl (⟨eps.value, a.unit, true⟩ : Quantity α) = 0 := by
+    unfold phys
+    simp only [he]
+    grind
+  rw [hphys, L.abs_le_zero_iff]
+  constructor
+  · intro h; grind
+  · intro h; rw [h]; grind
 
 end NumbatModel.Qty
